@@ -1515,6 +1515,11 @@ where
         if !self.is_define_component_call(call) {
             return;
         }
+        if call.args.is_empty() {
+            // nothing to name: an options argument added here would become the component
+            // argument itself (and the next run would add another one)
+            return;
+        }
 
         inject_define_component_option(
             call,
